@@ -347,3 +347,20 @@ def conclude(agg):
     if c["generate_relations_evaluated"] < 500:
         out.append(f"only {c['generate_relations_evaluated']} generate relations evaluated")
     return out
+
+
+def replay(rec):
+    from ..runner import ReplayCtx
+
+    ctx = ReplayCtx()
+    case = rec["case"]
+    d = "" if case.get("dialect") in (None, "base") else case.get("dialect", "")
+    if "max_errors" in case:
+        check_parse_levels(ctx, case["sql"], d, case["max_errors"], {}, case.get("parser", "fresh"))
+    else:
+        import sqlglot
+
+        rd = "" if case.get("read") == "base" else case.get("read", "")
+        wr = "" if case.get("write") == "base" else case.get("write", "")
+        check_generate_levels(ctx, sqlglot.parse_one(case["sql"], read=rd), rd, wr, case.get("max_unsupported", 3), reuse=case.get("reused_generator", False))
+    return ctx.report()
